@@ -1,0 +1,23 @@
+//go:build verif
+
+// Read-only verification hooks (build tag `verif`), used by /verif/harness/cmd/sanitizedrv.
+// Nothing here is compiled into a normal build.
+
+package model
+
+// Unexported constants of the error cause compactor.
+const (
+	VerifPaddingForFieldNames   = paddingForFieldNames
+	VerifMaxJSONEscapeExpansion = maxJSONEscapeExpansion
+)
+
+// VerifNewErrorCause is newErrorCause: the parse step of ValidatedErrorCauseJSON.
+func VerifNewErrorCause(errorCauseJSON []byte) (*ErrorCause, error) {
+	return newErrorCause(errorCauseJSON)
+}
+
+// VerifIsValid is (*ErrorCause).isValid.
+func VerifIsValid(ec *ErrorCause) bool { return ec.isValid() }
+
+// VerifCropString is cropString.
+func VerifCropString(str string, length int) string { return cropString(str, length) }
